@@ -87,6 +87,47 @@ example : decodeQuoted stdStr.conv stdStr.quote "\"a\\\"b*\"".toList
   quoted_decodes stdStr (by decide) (by decide) (by decide) [.lit 'a', .lit '"', .lit 'b', .star] _
     (by decide)
 
+/-! ## 3b. Literals emitted without quotes by a backend that has a string quote (conditional quoting) -/
+
+/-- Whatever the quoting decision was: a value that `convert_value_str` emits WITHOUT quotes is read
+back exactly by the target's bare-word reader, for which the quote character keeps its meaning inside
+a bare word (`decodeBare`): no source character — in particular not the quote character, which the
+backend adds to the escaped set whether or not it quotes — acts as a string delimiter there.
+(`quoteTailOk` is not needed: nothing follows a bare word.) -/
+theorem bare_decodes (c : StrCfg) (hk : convWf c.conv = true)
+    (hq : quoteWf c.conv c.quote = true)
+    (s : SStr) (t : Str) (h : convertValueStr c false s = .ok t) :
+    decodeBare c.conv c.quote t = some (filtered c.conv s) := by
+  obtain ⟨e, W⟩ := wf_of_convWf hk
+  obtain ⟨qc, hqc, Q⟩ := qwf0_of W hq
+  unfold convertValueStr at h
+  cases hr : convert c.conv s with
+  | error err => simp [hr] at h
+  | ok t' =>
+    simp only [hr, Bool.false_eq_true, if_false, Except.ok.injEq] at h
+    subst h
+    unfold decodeBare
+    rw [hqc]
+    simp only [List.isEmpty_cons, Bool.false_eq_true, if_false]
+    exact decodeBareBody_convert W Q s t' hr _ (Nat.lt_succ_self _)
+
+/-- a language without a string quote: the bare-word reader is the plain token reader -/
+theorem bare_decodes_noquote (k : Conv) (t : Str) : decodeBare k [] t = decode k t := by
+  simp [decodeBare]
+
+example : decodeBare stdStr.conv stdStr.quote "6\\\"x4\\\"*".toList
+    = some [.lit '6', .lit '"', .lit 'x', .lit '4', .lit '"', .star] :=
+  bare_decodes stdStr (by decide) (by decide) [.lit '6', .lit '"', .lit 'x', .lit '4', .lit '"', .star]
+    _ (by decide)
+
+/-- escaping the quote is necessary also when the value is not quoted: the same value with its quote
+characters left bare is not a bare word of the target (the reader rejects it), although the
+quote-unaware token reader `decode` would accept it -/
+theorem bare_quote_needed :
+    decodeBare stdStr.conv stdStr.quote "6\"x4\"".toList = none ∧
+    decode stdStr.conv "6\"x4\"".toList = some [.lit '6', .lit '"', .lit 'x', .lit '4', .lit '"'] := by
+  decide
+
 /-! ## 4. The regular-expression form matches exactly what the wildcard pattern matches -/
 
 /-- (`hc` holds for every `custom`, see `regexConv_wf`; it is kept for uniformity and not used.) -/
@@ -176,6 +217,30 @@ example : fieldQuoteOk { escape := some ['\\'], escapeChars := [' ', '\\'], esca
 /-- a configuration that does not escape its quote still round-trips names without the quote -/
 example : fieldQuoteOk { escape := some ['\\'], escapeChars := ['\\'], escapeQuote := false,
                          quote := some ['"'] } true ['a', ' ', 'b'] = true := by decide
+
+/-- A configuration that escapes its quote character TWICE OVER — the escape class contains it and
+`field_escape_quote` is set — still emits exactly one escape string in front of it: the rendering is
+the one of either mechanism alone, and it reads back (instance of `field_roundtrip_quote_escaped`). -/
+theorem field_quote_in_class_once (e : Str) (cls : List Char) (qc : Char) (hq : qc ∈ cls) (f : Str) :
+    escapeField { escape := some e, escapeChars := cls, escapeQuote := true, quote := some [qc] } f
+      = escapeField { escape := some e, escapeChars := cls, escapeQuote := false, quote := some [qc] } f := by
+  simp only [escapeField]
+  congr 1
+  funext ch
+  by_cases h : ch ∈ cls
+  · simp [h]
+  · have hne : qc ≠ ch := by
+      rintro rfl
+      exact h hq
+    simp [h, hne]
+
+example :
+    let c : FieldCfg := { escape := some ['\\'], escapeChars := [' ', '\\', '\''], escapeQuote := true,
+                          quote := some ['\''] }
+    escapeAndQuoteField c true "user's name".toList = "'user\\'s\\ name'".toList ∧
+    decodeField c true "'user\\'s\\ name'".toList = some "user's name".toList ∧
+    -- the quote escaped twice: `\\` is a backslash, the quote after it ends the name early
+    decodeField c true "'user\\\\'s\\ name'".toList = none := by decide
 
 /-- without "the escape character is among the escaped characters" it fails -/
 theorem field_escape_needed :
